@@ -278,12 +278,9 @@ Fixpoint tpl_scan (st : tpl_pst) (s : string) : option (list tpl_seg) :=
       end
   end.
 
-(* currentStr += string(b) with b a byte: string(byte) is the UTF-8 encoding of the code point b,
-   so bytes >= 0x80 are re-encoded as two bytes *)
-Definition tpl_byte_to_string (c : ascii) : string :=
-  let n := tpl_code c in
-  if (n <? 128)%N then String c EmptyString
-  else String (ascii_of_N (192 + n / 64)) (String (ascii_of_N (128 + n mod 64)) EmptyString).
+(* currentStr += string([]byte{b}): every byte is copied as it is (fix 06-template-non-ascii; before
+   it, string(b) re-encoded a byte >= 0x80 as the two-byte UTF-8 form of the code point b) *)
+Definition tpl_byte_to_string (c : ascii) : string := String c EmptyString.
 
 Fixpoint tpl_subst (env : tpl_env) (segs : list tpl_seg) : tpl_err + string :=
   match segs with
@@ -512,37 +509,35 @@ Definition tpl_apply_sort (col : string) (ord : option tpl_order) (sort : string
 
 Definition tpl_opt_or {A} (o : option A) (d : A) : A := match o with Some x => x | None => d end.
 
-(* [fieldwise = false]: UnmarshalJSON of [j] into [p] followed by the std decoding of [j] into p.Opts,
-   as Overwrite does. [fieldwise = true]: the reading "request fields override template fields"
-   (a field absent from [j] keeps the previous value) -- NOT what the code does, used to state the
-   refuted reading and its partial version. *)
-Definition tpl_apply (fieldwise : bool) (p : tpl_params) (j : tpl_pjson) : tpl_err + tpl_params :=
+(* UnmarshalJSON of [j] into [p] followed by the std decoding of [j] into p.Opts, as Overwrite does.
+   Since fix 05-template-params-fieldwise an object overrides exactly the fields it carries: an absent
+   (or null) endTime / startTime / expand / pageSize keeps the current value, like sort and the
+   volumes options always did. (pageSize 0 and expand [] stand for "absent" in [tpl_pjson].) *)
+Definition tpl_apply (p : tpl_params) (j : tpl_pjson) : tpl_err + tpl_params :=
   if tpj_pagesize j <? 0 then inl TpeBadParams else
   match tpl_apply_sort (tpp_column p) (tpp_order p) (tpj_sort j) with
   | inl e => inl e
   | inr (col, ord) =>
-      inr {| tpp_pit := match tpj_end j with Some t => Some t | None => if fieldwise then tpp_pit p else None end;
-             tpp_oot := match tpj_start j with Some t => Some t | None => if fieldwise then tpp_oot p else None end;
-             tpp_expand := match tpj_expand j with [] => if fieldwise then tpp_expand p else [] | l => l end;
+      inr {| tpp_pit := match tpj_end j with Some t => Some t | None => tpp_pit p end;
+             tpp_oot := match tpj_start j with Some t => Some t | None => tpp_oot p end;
+             tpp_expand := match tpj_expand j with [] => tpp_expand p | l => l end;
              tpp_column := col; tpp_order := ord;
-             tpp_pagesize := if (tpj_pagesize j =? 0) && fieldwise then tpp_pagesize p else tpj_pagesize j;
+             tpp_pagesize := if tpj_pagesize j =? 0 then tpp_pagesize p else tpj_pagesize j;
              tpp_opts := {| tpv_insertion := tpl_opt_or (tpj_insertion j) (tpv_insertion (tpp_opts p));
                             tpv_group := tpl_opt_or (tpj_group j) (tpv_group (tpp_opts p)) |} |}
   end.
 
-Fixpoint tpl_apply_all (fieldwise : bool) (p : tpl_params) (others : list (option tpl_pjson)) : tpl_err + tpl_params :=
+Fixpoint tpl_apply_all (p : tpl_params) (others : list (option tpl_pjson)) : tpl_err + tpl_params :=
   match others with
   | [] => inr p
-  | None :: r => tpl_apply_all fieldwise p r          (* empty or null RawMessage: skipped *)
-  | Some j :: r => match tpl_apply fieldwise p j with inl e => inl e | inr p' => tpl_apply_all fieldwise p' r end
+  | None :: r => tpl_apply_all p r          (* empty or null RawMessage: skipped *)
+  | Some j :: r => match tpl_apply p j with inl e => inl e | inr p' => tpl_apply_all p' r end
   end.
 
-Definition tpl_unmarshal := tpl_apply false.
+Definition tpl_unmarshal := tpl_apply.
 (* QueryTemplateParams.Overwrite *)
 Definition tpl_overwrite (p : tpl_params) (others : list (option tpl_pjson)) : tpl_err + tpl_params :=
-  tpl_apply_all false p others.
-Definition tpl_fieldwise (p : tpl_params) (others : list (option tpl_pjson)) : tpl_err + tpl_params :=
-  tpl_apply_all true p others.
+  tpl_apply_all p others.
 
 (* ------------------------------------------------------------------ RunQuery: defaults, query construction *)
 Record tpl_config := { tpc_max : Z; tpc_default : Z }.      (* storagecommon.PaginationConfig *)
